@@ -1,22 +1,22 @@
----- MODULE MC_C07_quick_C_shape_n4 ----
+---- MODULE MC_C07_thorough_S_shape_sweep ----
 EXTENDS C07
 MC_DomH1 == {3}
-MC_DomH2 == {3}
+MC_DomH2 == {5}
 MC_DomH3 == {4}
 MC_DomH4 == {7}
 MC_DomH5 == {9}
 MC_DomHDKG == {4}
 MC_DomHR == {1}
 MC_DomHID == {1}
-MC_Shapes == {<<4,4>>, <<4,3>>}
-MC_IdSets == {{1,2,3,4}, {2,5,7,10}}
+MC_Shapes == {sh \in (2..12) \X (2..12) : sh[2] <= sh[1]}
+MC_IdSets == {1..n : n \in 2..12}
 MC_A0Choices == {7}
 MC_CoeffChoices == {3}
 MC_KChoices == {2}
-MC_MaxExtra == 1
+MC_MaxExtra == 0
 MC_RandChoices == {1}
 MC_Msg == <<104,105>>
-MC_SweepSigners == FALSE
+MC_SweepSigners == TRUE
 MC_EMIT == TRUE
 
 ====
